@@ -342,10 +342,7 @@ class C10(Check):
         reset_memo()
         envname = case["env"]
         items = [tuple(i) for i in case["items"]]
-        viols = check_case(get_env(envname), envname, items, None)
-        for v in viols:
-            print(f"  source={case['source']!r}\n  {v['what']}")
-        return viols
+        return check_case(get_env(envname), envname, items, None)
 
 
 CHECK = C10()
